@@ -429,6 +429,7 @@ def oracle(run, deep):
     # re-entrant switch emulation: a complete parse of B between two fetches of A (thread-free)
     pool = VALID + INVALID
     serialising = [False]
+    proven_reentrant = [False]
 
     def guarded(fn, seconds=20.0):
         """run fn in a helper thread; None when it does not return (an engine that serialises its parses blocks a parse
@@ -462,7 +463,30 @@ def oracle(run, deep):
                 def one():
                     with Patch(hook):
                         return outcome(lambda: eng(a))
-                got = guarded(one)
+                if not proven_reentrant[0]:
+                    # first make sure, on an engine of its own and under a watchdog, that a parse started inside another
+                    # parse returns at all; after that the emulation runs in THIS thread (a parse may behave differently
+                    # when it is the only thread of the process)
+                    probe_eng = engine()
+
+                    def probe_one():
+                        def h(lexer, orig, st=[0]):
+                            st[0] += 1
+                            if st[0] == 2:
+                                try:
+                                    probe_eng("1")
+                                except Exception:
+                                    pass
+                            return orig(lexer)
+                        with Patch(h):
+                            return outcome(lambda: probe_eng("1 + 2"))
+                    if guarded(probe_one) is None:
+                        got = None
+                    else:
+                        proven_reentrant[0] = True
+                        got = one()
+                else:
+                    got = one()
                 if got is None:
                     serialising[0] = True
                     run.note("re-entrant emulation stopped: a parse started inside another parse of the same thread does not return "
